@@ -29,6 +29,7 @@ def handlers : List (DState → String → List String → List String → Optio
   fun st op args impl => (Units.handle op args impl).map fun o => (st, o),
   Index.handle,
   Array.handle,
+  Array.handleTyped,
   Valid.handle,
   Store.handle,
   Modes.handle,
